@@ -3,7 +3,7 @@
 
 usage: tools/seed_eval.py <Cxx> <out_dir> <bugN> [--checks C01,C02] [--no-suite]
 
-1. in the scratch worktree /tmp/wt_main (unchanged HEAD): place the demo, run it
+1. in the scratch worktree /tmp/wt_$MUT_SLOT (unchanged HEAD): place the demo, run it
    -> must pass;
 2. apply the diff: demo must fail; the whole existing suite must still pass
    (564 passed, only fidget-wgpu ssao_bias failing);
@@ -37,9 +37,10 @@ def main():
     assert m1 and m2, head
     place, run_cmd = m1.group(1), m2.group(1).strip()
     run_cmd = run_cmd.replace('cargo test', 'cargo test -j 8')
-    wt = '/tmp/wt_main'
+    slot = os.environ.get('MUT_SLOT', 'main')
+    wt = f'/tmp/wt_{slot}'
     if not os.path.isdir(wt):
-        sh('git -C /repo worktree add -q --detach /tmp/wt_main HEAD')
+        sh(f'git -C /repo worktree add -q --detach {wt} HEAD')
     headc = subprocess.check_output(['git', '-C', '/repo', 'rev-parse', 'HEAD'], text=True).strip()
     sh(f'git checkout -q --detach {headc} && git reset -q --hard && git clean -qfd -e target', cwd=wt)
     os.makedirs(os.path.dirname(f'{wt}/{place}'), exist_ok=True)
@@ -86,7 +87,7 @@ def main():
             'files': meta.get('files', []),
             'demo': {'place_at': place, 'run': run_cmd, 'exit_unchanged': rc0, 'exit_changed': rc1},
             'existing_suite_with_change': suite_line,
-            'confirmed_by': 'tools/seed_eval.py in scratch worktree /tmp/wt_main',
+            'confirmed_by': f'tools/seed_eval.py in scratch worktree {wt}',
             'checks': results,
         }, open(f'{dst}/meta.json', 'w'), indent=1)
         print('KEPT', dst)
